@@ -265,6 +265,65 @@ pub fn test_large(c: &LargeTagCase) -> TestResult {
     Ok(Info::new(true).class(c.n_words + c.n_tokens > 65536, ">65536-character-patterns").class(probes > 100000, ">100000-probe-texts"))
 }
 
+/// A model with `n` tag models (one per single-character token, in code point order); all but a
+/// handful fix their tag, the ambiguous ones sit at the start, in the middle and behind the
+/// 65,536th and carry character and type tag n-gram weights.
+#[derive(Clone, Debug, Serialize, Deserialize)]
+pub struct ManyModelsCase {
+    pub n: usize,
+}
+
+pub fn test_many_models(c: &ManyModelsCase) -> TestResult {
+    use vcommon::mirror::{TagModelSpec, TagNgramSpec, TagWeightSpec};
+    let tokens: Vec<char> = (0x3400u32..=0x4DBF)
+        .chain(0x4E00..=0x9FFF)
+        .chain(0xA000..=0xA48C)
+        .chain(0xAC00..=0xD7A3)
+        .chain(0x20000..=0x2A6DF)
+        .filter_map(char::from_u32)
+        .take(c.n)
+        .collect();
+    ensure_eq!(tokens.len(), c.n, "harness: not enough distinct token characters");
+    let ambiguous: Vec<usize> = [0, 7, c.n / 2, 65_535, 65_536, 65_537, 65_543, c.n - 1].into_iter().filter(|&k| k < c.n).collect();
+    let mut spec = ModelSpec { char_window: 2, type_window: 2, bias: 1, ..ModelSpec::default() };
+    for (k, t) in tokens.iter().enumerate() {
+        if ambiguous.contains(&k) {
+            spec.tag_models.push(TagModelSpec {
+                token: t.to_string(),
+                tags: vec![vec!["P".into(), "Q".into()], vec![format!("k{k}")]],
+                char_ngrams: vec![TagNgramSpec { ngram: "x".into(), weights: vec![TagWeightSpec { rel_position: 1, weights: vec![0, 100 + (k % 50) as i32] }] }],
+                type_ngrams: vec![TagNgramSpec { ngram: vec![2], weights: vec![TagWeightSpec { rel_position: 1, weights: vec![0, 7] }] }],
+                bias: vec![10, 0],
+            });
+        } else {
+            spec.tag_models.push(TagModelSpec { token: t.to_string(), tags: vec![vec!["F".into()]], char_ngrams: vec![], type_ngrams: vec![], bias: vec![] });
+        }
+    }
+    let mut p = util::predictor(&spec, true)?;
+    p.store_tag_scores(true);
+    let mut s = Sentence::default();
+    for &k in &ambiguous {
+        for follow in ["x", "y", "。"] {
+            let text = format!("{}{follow}{}", tokens[k], tokens[(k + 1) % c.n]);
+            let sub = ModelSpec {
+                tag_models: spec.tag_models.iter().filter(|t| text.contains(t.token.as_str())).cloned().collect(),
+                ..ModelSpec { char_window: 2, type_window: 2, bias: 1, ..ModelSpec::default() }
+            };
+            let cs = util::chars(&text);
+            s.update_raw(text.clone()).map_err(|e| e.to_string())?;
+            p.predict(&mut s);
+            s.fill_tags();
+            let labels = util::labels(&s);
+            let (_, flat, per_token, _) = oracle::ref_tags(&sub, &cs, &labels);
+            ensure_eq!(util::flat_tags(&s), flat, "tags of {text:?} (tag model number {k} of {})", c.n);
+            let t = s.iter_tokens().next().ok_or("no token")?;
+            let cands: Vec<Vec<(String, i64)>> = t.tag_candidates().into_iter().map(|c| c.into_iter().map(|(n, sc)| (n.to_string(), sc as i64)).collect()).collect();
+            ensure_eq!(cands, per_token[0].candidates, "tag_candidates of the first token of {text:?} (tag model number {k} of {})", c.n);
+        }
+    }
+    Ok(Info::new(true).class(c.n > 65536, ">65536-tag-models"))
+}
+
 /// Texts longer than 65,535 characters (and exactly around that length) with a small tagged
 /// model: tokens with tag models occur all along the text, also beyond character 65,536.
 pub fn long_text_cases() -> Vec<TagCase> {
@@ -352,6 +411,15 @@ on the relevant part of the model",
         false,
         vec![LargeTagCase { n_words: 70000, n_tokens: 6 }, LargeTagCase { n_words: 300, n_tokens: 3 }].into_iter(),
         test_large,
+    );
+    rep.run_enum(
+        "many-tag-models",
+        "models with 70,000 and 300 tag models (more than 65,536 token numbers); ambiguous tokens \
+with character and type tag n-gram weights at the start, in the middle and behind number 65,535: \
+tags and stored candidate scores equal RefTags",
+        false,
+        vec![ManyModelsCase { n: 70000 }, ManyModelsCase { n: 300 }].into_iter(),
+        test_many_models,
     );
     let n = rep.n(40000, 2000000);
     rep.run_prop(
